@@ -80,6 +80,33 @@ def _spawn(pid: str, spec: dict, workdir: str, idx: int, timeout: float):
         return idx, json.load(f), None, time.time() - t0
 
 
+def _repo_suite(pid: str, workdir: str, timeout: float):
+    """Thorough tier: the repository's own tests re-run with the monitors armed (pytest plugin);
+    monitor hits keyed with this property's id are merged into the verdict."""
+    report = os.path.join(workdir, "repo_suite.json")
+    env = dict(os.environ, PTA_VERIF_MONITORS="1", PTA_PLUGIN_REPORT=report, PYTHONHASHSEED="0")
+    env["PYTHONPATH"] = VERIF + os.pathsep + os.path.join(boot.REPO, "src") + os.pathsep + env.get("PYTHONPATH", "")
+    cmd = [sys.executable, "-m", "pytest", "-p", "pta_verif.pytest_plugin", "-q", "-p", "no:cacheprovider", "--timeout=900", "--deselect", "tests/test_architecture.py"]
+    t0 = time.time()
+    try:
+        subprocess.run(cmd, env=env, cwd=boot.REPO, capture_output=True, text=True, timeout=timeout)
+    except subprocess.TimeoutExpired:
+        return None, "repository test-suite under monitors hit the watchdog", time.time() - t0
+    if not os.path.exists(report):
+        return None, "repository test-suite under monitors produced no report", time.time() - t0
+    with open(report) as f:
+        rep = json.load(f)
+    acc = Acc()
+    for k, v in rep["counters"].items():
+        acc.counters["repo_suite_" + k] = v
+    for k, v in rep["violations"].items():
+        acc.violation_counts[k] = v["count"]
+        acc.violations[k].append(v["first"])
+    for w in rep["inconclusive"]:
+        acc.mark_inconclusive("repo suite: " + w)
+    return acc.dump(), None, time.time() - t0
+
+
 def main(argv=None) -> int:
     ap = argparse.ArgumentParser()
     ap.add_argument("pid", nargs="?")
@@ -128,8 +155,16 @@ def main(argv=None) -> int:
         else:
             with ThreadPoolExecutor(max_workers=max(1, args.jobs)) as ex:
                 futs = [ex.submit(_spawn, pid, s, workdir, i, timeout) for i, s in enumerate(specs)]
+                suite = ex.submit(_repo_suite, pid, workdir, timeout) if args.tier == "thorough" else None
                 for fu in futs:
                     idx, dump, err, wall = fu.result()
+                    shard_walls.append(round(wall, 1))
+                    if err:
+                        acc.mark_inconclusive(err)
+                    else:
+                        acc.merge(dump)
+                if suite is not None:
+                    dump, err, wall = suite.result()
                     shard_walls.append(round(wall, 1))
                     if err:
                         acc.mark_inconclusive(err)
@@ -157,7 +192,7 @@ def main(argv=None) -> int:
     out_lines = []
     for key, lst in kf:
         out_lines.append(f"KNOWN-FINDING: property={pid} key={key.split(':', 1)[1]} {lst[0]['what']} (seen {acc.violation_counts[key]}x)")
-    replay_dir = os.path.join(VERIF, "replays", pid)
+    replay_dir = os.path.join(os.environ.get("PTA_REPLAY_DIR") or os.path.join(VERIF, "replays"), pid)
     for key, lst in new:
         os.makedirs(replay_dir, exist_ok=True)
         safe = "".join(ch if ch.isalnum() or ch in "-_." else "_" for ch in key.split(":", 1)[1])[:80]
@@ -215,8 +250,9 @@ def write_evidence(pid, mod, tier, seed, acc, verdict, wall, kf, new, foreign, n
         "foreign_monitor_hits": foreign,
         "inconclusive_reasons": acc.inconclusive,
     }
-    os.makedirs(os.path.join(VERIF, "evidence"), exist_ok=True)
-    path = os.path.join(VERIF, "evidence", f"{pid}.json")
+    evdir = os.environ.get("PTA_EVIDENCE_DIR") or os.path.join(VERIF, "evidence")  # the self-audit redirects it
+    os.makedirs(evdir, exist_ok=True)
+    path = os.path.join(evdir, f"{pid}.json")
     tmp = path + ".tmp"
     with open(tmp, "w") as f:
         json.dump(ev, f, indent=1, sort_keys=True)
